@@ -303,7 +303,8 @@ theorem greater_incomplete_err (e : Sev) : ¬ NoErr (e.greater .incomplete) := b
     delimAt cfg ds c = true := by simp [delimAt, h]
 
 /-- the sentinel test only ever adds a WARNING: without an error it said no -/
-theorem noErr_warnIf (e : Sev) (b : Bool) (h : NoErr (e.warnIf b)) : b = false ∧ NoErr e := by
+theorem noErr_sentinelIf (e : Sev) (b : Bool) (h : NoErr (e.sentinelIf b)) : b = false ∧ NoErr e := by
+  unfold Sev.sentinelIf at h
   cases b with
   | false => exact ⟨rfl, by simpa [Sev.warnIf] using h⟩
   | true => exact absurd h (by simpa [Sev.warnIf] using greater_warning_err e)
